@@ -46,6 +46,7 @@ def source_fingerprint(objs) -> list[dict]:
 
 def _worker(args):
     fn, config, tier, seed = args
+    sys.setrecursionlimit(50000)
     t0 = time.time()
     try:
         res = fn(config, tier, seed)
